@@ -439,6 +439,13 @@ def nd_dtype(I, obj):
     return 'int'
 
 
+def nd_has_none(I, obj):
+    """an array built from data that holds a None somewhere: numpy makes it an OBJECT array (elements kept as they are)"""
+    if not (is_list(obj) and obj.kind == 'clist'):
+        return False
+    return any(x is None or (is_list(x) and nd_has_none(I, x)) for x in I.st.heap[obj])
+
+
 def cast_scalar(I, v, dt):
     if v is None and dt == 'float':
         return NAN                      # numpy: float(None) inside asarray(.., dtype=float) is nan
@@ -1815,7 +1822,7 @@ def container_method(I, obj, name):
                 return len(_lib.nd_flat(n))
             return list_len(I, obj)
         if name == 'dtype' and obj.nd:
-            return TypeTag(nd_dtype(I, obj))
+            return TypeTag('object' if nd_has_none(I, obj) else nd_dtype(I, obj))
         if name == 'astype':
             return B(lambda I_, a, k: _astype(I_, obj, a[0]))
         if name == 'count' and obj.kind == 'clist':
